@@ -1,7 +1,7 @@
 (* Proofs about the DenseMatrix model: layout arithmetic, refinement of the
    storage level (rows with alignment padding, flat ravel view) to the logical
    table, for every operation and every operation sequence. *)
-From Coq Require Import List Arith Bool Lia.
+From Coq Require Import List Arith Bool Lia Permutation.
 From LMBase Require Import Res ListX.
 From LMDense Require Import DenseModel.
 Import ListNotations.
@@ -89,6 +89,42 @@ Lemma map_fst_combine {A B} (l1 : list A) (l2 : list B) :
 Proof.
   revert l2; induction l1 as [|a l1 IH]; intros [|b l2] H; simpl in *; try discriminate; auto.
   f_equal; auto.
+Qed.
+
+(* double-ended iteration hands out every row exactly once, whatever the interleaving
+   of next() and next_back(); all-front is the row order, all-back its reverse *)
+Lemma take_mixed_perm {T} (pat : list bool) : forall t : @table T,
+  length pat = length t -> Permutation (take_mixed pat t) t.
+Proof.
+  induction pat as [|b p IH]; intros t H.
+  - destruct t; simpl in *; try discriminate. constructor.
+  - destruct b; simpl.
+    + destruct t as [|x r]; simpl in *; try discriminate.
+      constructor. apply IH. lia.
+    + destruct (rev t) as [|x r] eqn:E.
+      * destruct t; simpl in *; try discriminate.
+        apply (f_equal (@length _)) in E. rewrite app_length in E. simpl in E. lia.
+      * assert (Ht : t = rev r ++ [x]).
+        { rewrite <- (rev_involutive t), E. reflexivity. }
+        subst t. rewrite app_length in H. simpl in H.
+        eapply perm_trans; [| apply Permutation_cons_append].
+        constructor. apply IH. rewrite rev_length in *. lia.
+Qed.
+
+Lemma take_mixed_front {T} : forall t : @table T, take_mixed (repeat true (length t)) t = t.
+Proof. induction t; simpl; auto. f_equal; auto. Qed.
+
+Lemma take_mixed_back {T} : forall n (t : @table T), n = length t ->
+  take_mixed (repeat false n) t = rev t.
+Proof.
+  induction n as [|n IH]; intros t H.
+  - destruct t; simpl in *; try discriminate; auto.
+  - simpl. destruct (rev t) as [|x r] eqn:E.
+    + destruct t; simpl in *; try discriminate.
+      apply (f_equal (@length _)) in E. rewrite app_length in E. simpl in E. lia.
+    + f_equal. rewrite IH.
+      * apply rev_involutive.
+      * apply (f_equal (@length _)) in E. rewrite rev_length in *. simpl in E. lia.
 Qed.
 
 Section DenseProofs.
